@@ -51,6 +51,15 @@ def make_stream(rng, small=False, marks=None):
         if valid and kk < 0.10:  # exact repeat of an earlier frame (static messages repeat verbatim)
             parts.append(rng.choice(valid))
             continue
+        if valid and 0.40 <= kk < 0.46:
+            # a frame, then at once its copy damaged ONLY in the three checksum bytes (and sometimes the same damaged
+            # copy twice): a reader that recognises repeats must still check each copy's own trailer
+            fr = rng.choice(valid)
+            bad = fr[:-3] + bytes(b ^ m for b, m in zip(fr[-3:], rng.choice(((1, 0, 0), (0, 0, 1), (0x80, 0, 0),
+                                                                            (0, 0x10, 0), (0xFF, 0xFF, 0xFF)))))
+            parts.append(fr + bad + (bad if rng.random() < 0.4 else b""))
+            foreign = True
+            continue
         if valid and kk < 0.18:  # damaged repeat: header/payload bits flipped, trailer intact
             fr = rng.choice(valid)
             nb = (len(fr) - 3) * 8
@@ -434,6 +443,19 @@ def run(ctx):
                 sched.append(rng.choice(("T", "E")))
         sched += [rng.choice(("T", "E"))] * rng.choice((0, 1, 2))
         socket_case(ctx, data, sched[:600], rng.choice((1, 3, 64, 4096)), rng.choice((0, 1, 2)))
+    # (b3) ONE long socket session: more than a MiB through a single reader (housekeeping of long-lived buffers)
+    if ctx.worker % 4 == 0 or not ctx.quick:
+        frames = [refcrc.frame(bytes([0x3F, 0xF0 | (i >> 8) & 0xF, i & 0xFF]) + bytes(rng.getrandbits(8) for _ in range(
+            rng.choice((1010, 1010, 600, 200)))) + i.to_bytes(3, "big")) for i in range(2400)]
+        data = b"".join(frames)
+        sched = []
+        left = len(data)
+        while left > 0:
+            k = rng.choice((1460, 1460, 4096, 8192, 700, 65536))
+            sched.append(k)
+            left -= k
+        socket_case(ctx, data, sched, rng.choice((4096, 4096, 65536)), 0)
+        ctx.hit("long_socket_sessions")
     # (c) recorded logs with random plans
     logs = common.recorded_logs(120000)
     for i, (name, data) in enumerate(logs):
